@@ -3,18 +3,29 @@ deliveries, postponed finishes, transport pause/resume and connection loss at ev
 (tie, including the order of events) + an oracle on the real event log."""
 import re
 
+from twisted.internet import defer
+from twisted.logger import Logger
+
 from corr import _httpchan as H
 
 HEADLINE = ("TwistedProps.C21.at_most_one_request_in_flight / responses_in_request_order_not_interleaved / "
             "written_is_concatenation_of_responses / notifyFinish_fires_exactly_once / notifyFinish_result_matches_order")
-RULE = ("1-5 pipelined requests (bodies by Content-Length/chunked, Connection: close, HTTP/1.0, a malformed one) cut into random "
-        "deliveries, interleaved with: the application finishing the request it holds (resources answer at once, in pieces, later, "
-        "never; 0-2 notifyFinish Deferreds each), transport pauseProducing/resumeProducing, and connectionLost inserted at every "
-        "position of the event list (one case per position for short histories); distinct = (shape of the event log, lost?, closed?)")
+RULE = ("1-5 pipelined requests (bodies by Content-Length/chunked, Connection: close, HTTP/1.0, a malformed one; a third of them "
+        "carrying the header fields the server itself reads - User-Agent, Referer, Cookie, Host, Content-Type, ... - with quotes, "
+        "backslashes, Latin-1, UTF-8, control octets, empty values) cut into random deliveries, interleaved with: the application "
+        "finishing the request it holds (resources answer at once, in pieces, later, never, or RAISE - an Exception or a BaseException "
+        "that is not one - after taking their 0-2 notifyFinish Deferreds), the application dropping the client itself "
+        "(request.loseConnection() on the request it holds), transport pauseProducing/resumeProducing, and connectionLost inserted at "
+        "every position of the event list (one case per position for short histories); floods: 70-140 KB of pipelined requests "
+        "delivered behind a response that is finished late or never; a tenth of the histories under defer.setDebugging(True); every "
+        "history runs while a second connection of the same process (response pending, pipelined data buffered) is open, which is "
+        "completed afterwards and judged by the same oracle; distinct = (shape of the event log, lost?, closed?, class)")
 ASSUMES = [
     "a well-behaved application (the model's `step`): it finishes only the request it currently holds, at most once, and not after "
-    "its connection was lost (Request.finish raises then); what it writes / whether it finishes at once, later or never / how many "
-    "notifyFinish Deferreds it takes is arbitrary (the theorems quantify over every App)",
+    "its connection was lost (Request.finish raises then); it takes its notifyFinish Deferreds inside render; what it writes / "
+    "whether it finishes at once, later or never / whether render raises (then server.Request.processingFailed answers 500 and "
+    "finishes: the App's onRequest) / how many notifyFinish Deferreds it takes / whether and when it calls loseConnection() on the "
+    "request it holds (event `x` = Op.close) is arbitrary (the theorems quantify over every App and every history)",
     "a real transport (the model's `step`): nothing is delivered and no producer call is made after loseConnection()/an exception out "
     "of dataReceived; nothing at all after connectionLost",
     "the notifyFinish Deferreds of one request are modelled as a count and their firing loop as one event `notify k n ok` "
@@ -23,11 +34,13 @@ ASSUMES = [
     "a notifyFinish Deferred of a request that is neither finished nor lost has not fired (it fires when one of the two happens): "
     "proved as pending_while_in_flight; no liveness claim",
 ]
-TRUSTED = ["twisted.internet.testing.StringTransport(lenient=True); task.Clock; server.version / datetimeToString patched to constants"]
+TRUSTED = ["twisted.internet.testing.StringTransport(lenient=True), its unregisterProducer made idempotent as on a real transport "
+           "(HTTPChannel.loseConnection may be called twice: by the application, then by the channel); task.Clock; "
+           "server.version / datetimeToString patched to constants"]
 MANIFEST = {
     "text": "Lean theorems (TwistedProps/C21.lean + C21/*.lean) on the channel model, for every application and every history of "
-            "events from a fresh connection (deliveries in any segmentation; finish now/later/never; pause/resume; loss at any event "
-            "boundary): (a) at_most_one_request_in_flight — requests handed over are never more than one ahead of requestDone, "
+            "events from a fresh connection (deliveries in any segmentation; finish now/later/never; the application closing the connection under the request it "
+            "holds; pause/resume; loss at any event boundary): (a) at_most_one_request_in_flight — requests handed over are never more than one ahead of requestDone, "
             "requestReceived only when all earlier ones are done, requestDone(k) is for the request in flight; (b) "
             "responses_in_request_order_not_interleaved + written_is_concatenation_of_responses — the application's bytes for request k "
             "are written only while k is in flight, the channel's own 100/400 lines only while none is, so the wire is own0 resp0 own1 "
@@ -36,8 +49,9 @@ MANIFEST = {
             "lost, else they are all still pending (pending_while_in_flight); no_firing_without_request; "
             "notifyFinish_result_matches_order — a firing with None comes after requestDone(k), one with a failure while k is in flight. Proved by a global invariant "
             "(reach_good) kept by allContentReceived/lineReceived/rawDataReceived/the receive loop/every event; nothing partial. Model "
-            "tied to http.py by differential runs over random histories with loss at every event boundary, event order included; the "
-            "oracle re-checks (a)-(c) on the real event log.",
+            "tied to http.py by differential runs over random histories with loss at every event boundary, event order included "
+            "(resources that raise, application-initiated close and floods of buffered pipelined data are model-compared too); the "
+            "oracle re-checks (a)-(c) on the real event log of the connection and of a second connection open at the same time.",
     "note": "trusts Lean kernel, the hand-written channel model (differentially tied, event order included)",
     "technique": "Lean 4 proof (global invariant over channel state and outputs) + differential tie on event order + event-log oracle",
     "design_ref": "DESIGN.md §7 C21",
@@ -53,7 +67,7 @@ def _case(script, ops, feats=()):
 def _script(rng):
     out = []
     for _ in range(rng.choice([1, 2, 3, 4])):
-        mode = rng.choice([0, 0, 1, 2, 2, 2, 3])
+        mode = rng.choice([0, 0, 1, 2, 2, 2, 3, 4, 5])
         pieces = [rng.choice(["-", _W("a"), _W("hello"), _W("x" * 30)]) for _ in range(rng.choice([0, 1, 1, 2]))]
         out.append([mode, rng.choice([0, 1, 1, 2]), pieces])
     return out
@@ -73,15 +87,90 @@ REQS = [
 ]
 
 
+# header fields the server itself reads on the way of a request (access log: Referer / User-Agent; cookies; form
+# arguments; Host; the client address) with the values a peer may legally or illegally put there: any octet except
+# NUL, CR, LF - quotes, backslashes, Latin-1, UTF-8, empty
+HDR_NAMES = [b"User-Agent", b"user-agent", b"Referer", b"Cookie", b"Host", b"X-Forwarded-For", b"Authorization",
+             b"Accept-Encoding", b"If-Modified-Since", b"Content-Type", b"Range"]
+HDR_VALUES = [b"Mozilla/5.0 (X11; Linux x86_64)", b"caf\xe9", b"caf\xc3\xa9/1.0", b"\xff\xfe\x80", b"a \"quoted\" \\ value",
+              b"", b"x=1; y=\"2\"; \xe9", b"Basic !!!not-base64", b"text/plain; charset=\xe9", b"bytes=0-", b"'", b"%s %d %(ip)s",
+              b"\x7f\x01\x1f", b"http://h/\xe2\x82\xac?q=\"", b"gzip, deflate", b"1.2.3.4, \xe9"]
+
+
+def _decorate(rng, req):
+    """insert 1-3 such header fields after the request line of a well-formed request"""
+    i = req.index(b"\r\n") + 2
+    extra = b"".join(rng.choice(HDR_NAMES) + b": " + rng.choice(HDR_VALUES) + b"\r\n" for _ in range(rng.choice([1, 1, 2, 3])))
+    return req[:i] + extra + req[i:]
+
+
+def _request(rng):
+    r = rng.choice(REQS[:5] * 3 + REQS)
+    if r != REQS[8] and rng.random() < 0.3:
+        r = _decorate(rng, r)
+    return r
+
+
 def _history(rng):
-    stream = b"".join(rng.choice(REQS[:5] * 3 + REQS) for _ in range(rng.choice([1, 2, 2, 3, 4, 5])))
+    stream = b"".join(_request(rng) for _ in range(rng.choice([1, 2, 2, 3, 4, 5])))
     n = len(stream)
     cuts = sorted(set(rng.randrange(1, n) for _ in range(rng.choice([0, 1, 2, 4])))) if n > 1 else []
     ops = ["d" + H.hx(c) for c in H.chunks_of(stream, cuts)]
-    extra = ["f"] * rng.choice([0, 1, 2, 4, 6]) + ["p", "r"] * rng.choice([0, 0, 1, 2])
+    extra = ["f"] * rng.choice([0, 1, 2, 4, 6]) + ["p", "r"] * rng.choice([0, 0, 1, 2]) + ["x"] * rng.choice([0, 0, 0, 1, 1, 2])
     for e in extra:
         ops.insert(rng.randrange(len(ops) + 1), e)
     return ops
+
+
+def _big(rng, n):
+    if rng.random() < 0.7:
+        return b"POST /big HTTP/1.1\r\nContent-Length: %d\r\n\r\n" % n + b"z" * n
+    return b"PUT /bigc HTTP/1.1\r\nTransfer-Encoding: chunked\r\n\r\n%x\r\n" % n + b"c" * n + b"\r\n0\r\n\r\n"
+
+
+def _flood(rng):
+    """a response that is finished late (or never) with 70-200 KB of pipelined requests delivered behind it - several
+    times `_optimisticEagerReadSize`, with or without the transport pausing - then the finishes"""
+    script = [[rng.choice([2, 2, 3]), rng.choice([0, 1, 2]), [_W("slow")]]] + \
+             [[rng.choice([0, 1, 2]), rng.choice([0, 1, 2]), [_W("b")]] for _ in range(rng.choice([1, 2]))]
+    ops = ["d" + H.hx(rng.choice([REQS[0], REQS[4], REQS[1]]))]
+    total = 0
+    target = rng.choice([70000, 70000, 100000, 140000])
+    while total < target:
+        b = _big(rng, rng.choice([16384, 20000, 33000, 65536, 70000])) + (REQS[0] if rng.random() < 0.3 else b"")
+        total += len(b)
+        k = rng.choice([0, len(b) // 2, 30])
+        ops += ["d" + H.hx(b[:k]), "d" + H.hx(b[k:])] if 0 < k < len(b) else ["d" + H.hx(b)]
+    for e in ["p", "r"] * rng.choice([0, 0, 1]) + ["x"] * rng.choice([0, 0, 0, 1]):
+        ops.insert(rng.randrange(1, len(ops) + 1), e)
+    return script, ops + ["f"] * rng.choice([1, 3, 8])
+
+
+UA = b"GET /ua HTTP/1.1\r\nUser-Agent: caf\xe9 \"x\"\r\nReferer: http://h/\xc3\xa9\r\n\r\n"
+
+
+def _witnesses():
+    """one minimal history per class added by the mutation audit (harness/mutants/C21/README.md)"""
+    g = "d" + H.hx(REQS[0])
+    gg = "d" + H.hx(REQS[0] + REQS[1])
+    big = "d" + H.hx(REQS[9])
+    late2 = [[2, 2, [_W("later")]], [0, 1, [_W("now")]]]
+    cs = [
+        # the application drops the client while it holds the request, then the connection goes
+        _case(late2, [g, "x", "l"], ["appclose"]), _case(late2, [gg, "x", "f", "l"], ["appclose"]),
+        _case(late2, [gg, "x", "x", "l", "f"], ["appclose"]), _case([[3, 1, []]], [gg, "p", "x", "r", "l"], ["appclose"]),
+        # a resource that raises (Exception / BaseException) - at once, and behind a response that finishes later
+        _case([[4, 2, []]], [gg, "l"], ["raises"]), _case([[5, 2, []]], [gg, "l"], ["raises"]),
+        _case([[2, 1, [_W("x")]], [5, 1, []], [0, 1, []]], ["d" + H.hx(REQS[0] * 3), "f", "l"], ["raises"]),
+        _case([[2, 2, [_W("x")]], [4, 1, []]], ["d" + H.hx(REQS[0] + REQS[3] + REQS[6]), "f", "f", "l"], ["raises"]),
+        # far more than _optimisticEagerReadSize buffered behind a response that is finished later
+        _case(late2, [g, big, big, big, big, "f", "f", "f", "f", "f", "l"], ["flood"]),
+        _case(late2, [g, "p", big, big, "r", big, big, big, "f", "l"], ["flood"]),
+        # header fields the access log reads, with octets outside ASCII
+        _case(late2, ["d" + H.hx(UA + REQS[0]), "f", "l"], ["hdrs"]), _case([[0, 1, [_W("now")]]], ["d" + H.hx(UA + UA)], ["hdrs"]),
+        _case(late2, ["d" + H.hx(REQS[0] + UA), "f", "l"], ["debug", "hdrs"]),
+    ]
+    return cs
 
 
 def corpus():
@@ -91,7 +180,7 @@ def corpus():
           _case([[3, 2, []]], [d, "f", "p", "r", "l", "l"]),
           _case([[2, 2, [_W("x")]]], ["d" + H.hx(REQS[9][:100]), "p", "d" + H.hx(REQS[9][100:] + REQS[0]), "f", "r", "f", "l"]),
           _case([[2, 1, [_W("x")]]], ["d" + H.hx(REQS[0] + REQS[9] + REQS[0]), "p", "f", "r", "f", "f", "l"])]
-    return cs
+    return cs + _witnesses()
 
 
 def generate(rng, tier):
@@ -99,11 +188,17 @@ def generate(rng, tier):
     for i in range(n):
         script = _script(rng)
         ops = _history(rng)
-        yield _case(script, ops + ["f"] * rng.choice([0, 3]), ["noloss"])
+        dbg = ["debug"] if rng.random() < 0.1 else []
+        yield _case(script, ops + ["f"] * rng.choice([0, 3]), ["noloss"] + dbg)
         # connection loss at every event boundary (short histories), else at a few
         pos = range(len(ops) + 1) if len(ops) <= 6 else sorted(set(rng.randrange(len(ops) + 1) for _ in range(3)))
         for p in pos:
-            yield _case(script, ops[:p] + ["l"] + ops[p:], ["loss"])
+            yield _case(script, ops[:p] + ["l"] + ops[p:], ["loss"] + dbg)
+    for i in range(8 if tier == "quick" else 60):
+        script, ops = _flood(rng)
+        yield _case(script, ops, ["flood", "noloss"])
+        p = rng.randrange(1, len(ops) + 1)
+        yield _case(script, ops[:p] + ["l"] + ops[p:], ["flood", "loss"])
 
 
 def model_line(c):
@@ -125,16 +220,91 @@ def _events(st):
     return ",".join(out) if out else "none"
 
 
+_QUIET = Logger(observer=lambda event: None)
+
+
+class _Boom(BaseException):
+    """what a resource may raise that is not an `Exception` (KeyboardInterrupt, GeneratorExit, asyncio's CancelledError, ...)"""
+
+
+class Conn(H.Conn):
+    """the shared connection driver + what C21 adds to the application: script modes 4/5 (`render` takes its notifyFinish
+    Deferreds, then raises an Exception / a BaseException that is not one) and the event `x` (the application calls
+    `loseConnection()` on the request it holds)"""
+
+    def __init__(self, script):
+        H.Conn.__init__(self, script)
+        res, log, plain = self.res, self.log, self.res.render
+        t = self.transport
+
+        def unregisterProducer():
+            # as on a real transport (abstract.FileDescriptor.unregisterProducer): no complaint when loseConnection() is
+            # called a second time (the application drops the client, then the channel closes after the response)
+            t.producer = None
+            t.streaming = None
+        t.unregisterProducer = unregisterProducer
+
+        def render(request):
+            k = request._verif_k
+            mode, nf, _ = res.script[k % len(res.script)]
+            if mode not in (4, 5):
+                return plain(request)
+            for _ in range(nf):
+                request.notifyFinish().addCallbacks(lambda r, k=k: log.events.append(("N", k, 1 if r is None else 2)),
+                                                    lambda f, k=k: log.events.append(("N", k, 0)))
+            request._log = _QUIET      # processingFailed logs the failure as critical: not to our stderr
+            raise RuntimeError("render failed") if mode == 4 else _Boom()
+        res.render = render
+
+    def op(self, o):
+        if o == "x":
+            if not (self.lost or self.raised is not None or self.res.pending is None):
+                self.res.pending[0].loseConnection()
+            return
+        try:
+            H.Conn.op(self, o)
+        except _Boom:
+            # it went through `Request.process`: out of dataReceived (the reactor logs it and drops the connection) or
+            # out of the application's own call of finish()
+            self.raised = "_Boom"
+
+
+GET = lambda p: b"GET " + p + b" HTTP/1.1\r\n\r\n"
+DECOY_SCRIPT = [[2, 1, [_W("one")]], [2, 2, [_W("two")]]]
+DECOY_OPS = ["d" + H.hx(GET(b"/decoy1") + GET(b"/decoy2") + b"GET /dec")]
+
+
 def _run(c):
-    conn = H.Conn(c["script"])
+    """the history of the case on one connection - while ANOTHER connection of the same process (the decoy: a response
+    pending, a pipelined request and a half buffered behind it) is open; afterwards the decoy is completed"""
+    debug = "debug" in c.get("feats", ())
+    was = defer.getDebugging()
+    if debug:
+        defer.setDebugging(True)
+    decoy = H.Conn(DECOY_SCRIPT)
+    conn = None
     try:
+        for o in DECOY_OPS:
+            decoy.op(o)
+        conn = Conn(c["script"])
         for o in c["ops"]:
             conn.op(o)
         st = conn.state()
         st["lost"] = conn.lost
+        for o in ["f", "d" + H.hx(b"oy3 HTTP/1.1\r\n\r\n"), "f", "l"]:
+            decoy.op(o)
+        st["decoy"] = decoy.state()
+        st["decoy"]["lost"] = True
         return st
     finally:
-        conn.close()
+        if conn is not None:
+            conn.close()
+        decoy.close()
+        if debug:
+            defer.setDebugging(was)
+
+
+DECOY_ALL = DECOY_OPS + ["f", "d" + H.hx(b"oy3 HTTP/1.1\r\n\r\n"), "f", "l"]
 
 
 def run_impl(c):
@@ -144,9 +314,25 @@ def run_impl(c):
 
 def oracle(c, out):
     st = _run(c)
+    bad = _judge(c["script"], c["ops"], st)
+    if bad:
+        return bad
+    # the other connection of the process saw exactly its own three requests, in order, one at a time
+    d = st["decoy"]
+    if [r[1] for r in d["reqs"]] != [b"/decoy1", b"/decoy2", b"/decoy3"] or d["raised"]:
+        return {"key": "other-connection", "detail": f"a connection open at the same time was handed {[r[1] for r in d['reqs']]} "
+                                                     f"(raised: {d['raised']}) instead of its own /decoy1 /decoy2 /decoy3"}
+    bad = _judge(DECOY_SCRIPT, DECOY_ALL, d)
+    if bad:
+        return {"key": "other-connection", "detail": "on a connection open at the same time: " + bad["detail"]}
+    return None
+
+
+def _judge(script, ops, st):
+    """the property on the event log / wire bytes of one connection"""
+    c = {"ops": ops}
     ev = st["events"]
     w = st["written"]
-    script = c["script"]
     # (1) one request at a time, in order: R0 D0 R1 D1 …
     inflight = None
     nextk = 0
@@ -211,7 +397,21 @@ def tag(c, out):
     m = re.search(r"log=(\S+)", out)
     shape = re.sub(r"@\d+", "", m.group(1)) if m else out[:30]
     shape = re.sub(r"\d+", "#", shape)
-    return shape[:60] + ("|lost" if " lost=1" in out else "") + ("|closed" if out.startswith("closed=1") else "")
+    cls = ("|x" if "x" in c["ops"] else "") + ("|raise" if any(e[0] in (4, 5) for e in c["script"]) else "") + \
+          "".join("|" + f for f in c.get("feats", ()) if f in ("flood", "debug"))
+    return shape[:60] + ("|lost" if " lost=1" in out else "") + ("|closed" if out.startswith("closed=1") else "") + cls
+
+
+def search(rng, tier, disagreeing):
+    """around the histories on which model and code disagree: the connection lost at EVERY position, and every prefix
+    (instead of the engine's default, the whole thorough generator)"""
+    for c in disagreeing[:40]:
+        ops = [o for o in c["ops"] if o != "l"][:40]
+        feats = [f for f in c.get("feats", ()) if f in ("debug", "flood")]
+        for p in range(len(ops) + 1):
+            yield _case(c["script"], ops[:p] + ["l"] + ops[p:], ["loss"] + feats)
+        for p in range(1, len(ops) + 1):
+            yield _case(c["script"], ops[:p] + ["f", "f"], ["noloss"] + feats)
 
 
 def shrink(c):
